@@ -15,7 +15,8 @@ OPTION_MENU = [
     [['lit', 'a']], [['pat', 'x']], [['pat', 'y']], [['fn', '$eq', [['lit', 'a']]]], [['fn', '$eq', [['pat', 'x']]]],
     [['lit', 'a'], ['lit', 'b']], [['lit', 'b'], ['pat', 'x']],
 ]
-OPTION_MENU_SMALL = [[['lit', 'a']], [['pat', 'x']], [['lit', 'a'], ['lit', 'b']], [['fn', '$eq', [['pat', 'y']]]]]
+OPTION_MENU_SMALL = [[['lit', 'a']], [['pat', 'x']], [['lit', 'a'], ['lit', 'b']], [['fn', '$eq', [['pat', 'y']]]],
+                     [['fn', '$eq', [['pat', 'x']]]]]
 
 
 def names(refs, max_len, elems=None):
@@ -66,6 +67,12 @@ def constraint_variants(name, schema, level):
                 out.append([[t1, t2]])          # one set, two terms
         for t1, t2 in itertools.combinations(terms[:5], 2):
             out.append([[t1], [t2]])            # two alternative sets
+        # alternatives on the same pattern that differ only in the kind / argument of the option
+        for pp in pats:
+            same = [t for t in terms if t[0] == pp]
+            for t1, t2 in itertools.combinations(same, 2):
+                if [[t1], [t2]] not in out:
+                    out.append([[t1], [t2]])
     return out
 
 
